@@ -335,6 +335,34 @@ def main():
                     wdescr.append(wreplay)
             except ValueError:
                 dist["unprintable"] += 1
+    # ---- whole models that update a table in place: the file that is read is the file that is written, in any order of the commands ----
+    from mpilot.program import Program, EEMS_CSV_LIBRARIES
+    dist["in_place_updates"] = 0
+    for k in range(max(8, n // 8)):
+        rows = [(rnd.randint(-5, 9), rnd.choice([0.5, 2.25, -1.0, 3.0])) for _ in range(rnd.randint(2, 5))]
+        fn = os.path.join(wd, "table%d.csv" % (k % 2))
+        text = "a,b\n" + "".join("%d,%r\n" % r for r in rows)
+        with open(fn, "w") as fh:
+            fh.write(text)
+        cmds = ["A = EEMSRead(InFileName = %s, InFieldName = a)" % os.path.basename(fn),
+                "B = EEMSRead(InFileName = %s, InFieldName = b)" % os.path.basename(fn),
+                "S = Sum(InFieldNames = [A, B])",
+                "W = EEMSWrite(OutFileName = %s, OutFieldNames = [A, S])" % os.path.basename(fn)]
+        rnd.shuffle(cmds)                     # the writer may well be declared before the readers it depends on
+        src = "\n".join(cmds)
+        dist["in_place_updates"] += 1
+        evaluations += 1
+        replay = {"file": text, "model": src, "note": "the model reads and writes %s" % os.path.basename(fn)}
+        try:
+            Program.from_source(src, libraries=EEMS_CSV_LIBRARIES, working_dir=wd).run()
+        except Exception as ex:
+            fails.append({"sig": "C17:in-place-update-fails", "what": "a model that reads columns of a table and writes the table back failed with %s %s" % (type(ex).__name__, str(getattr(ex, "exc", ""))[:80]), "replay": replay})
+            continue
+        with open(fn) as fh:
+            got = list(csv.reader(fh.readlines()))
+        want = [["A", "S"]] + [[repr(float(a)), repr(float(a) + b)] for a, b in rows]
+        if [r for r in got if r] != want:
+            fails.append({"sig": "C17:in-place-update-values", "what": "after the update the table holds %r, expected %r" % (got[:4], want[:4]), "replay": replay})
     files = []
     CH = 150
     for i in range(0, len(rcases), CH):
